@@ -4,7 +4,7 @@
    operation, for every layout, dictionary and conversion oracle. *)
 From Coq Require Import NArith List Bool Arith Lia.
 From LC Require Import Base.Lib Gen.Editor_gen Model.Composition Model.Conversion Model.Editor Model.EditorRun
-     Proofs.CompositionProofs Proofs.Paging.
+     Proofs.CompositionProofs Proofs.Paging Proofs.BreakPoints.
 Import ListNotations.
 Open Scope nat_scope.
 
@@ -26,7 +26,21 @@ Notation editor' := (editor D SY).
 Hypothesis alt_stable : forall x c, so_alt sops (so_clear sops x) c = so_alt sops x c.
 
 (* a phrase selector's range is non-empty and inside the composition it was made from *)
-Definition ps_ok (p : phrase_sel) : Prop := ps_begin p < ps_end p /\ ps_end p <= clen (ps_com p).
+(* everything but "non-empty and inside the buffer": the range covers syllables only, the position the
+   list was opened at is a syllable of the buffer, and the range hangs on that position the way the
+   direction of choice says (forward: starts there; rearward: ends right after it and does not reach back
+   past the previous break point) *)
+Record ps_pre (p : phrase_sel) : Prop := {
+  pp_syl : syl_range (ps_com p) (ps_begin p) (ps_end p);
+  pp_orig : ps_orig p < clen (ps_com p) /\ syl_at (ps_com p) (ps_orig p);
+  pp_dir : if ps_fwd p then ps_begin p = ps_orig p
+           else ps_end p = S (ps_orig p) /\ apbp (ps_com p) (ps_orig p) <= ps_begin p
+}.
+Record ps_ok (p : phrase_sel) : Prop := {
+  po_lt : ps_begin p < ps_end p;
+  po_le : ps_end p <= clen (ps_com p);
+  po_pre : ps_pre p
+}.
 
 (* the current page lies inside the candidate list (first page when the list is empty) *)
 Definition page_ok (s : shared') (pg : nat) (sel : selector) : Prop :=
@@ -224,32 +238,64 @@ Proof.
   exfalso. apply (has_phrase_nonempty _ _ _ Hd H). now apply slice_nil_iff.
 Qed.
 
-Lemma ps_shrink_inv d fuel : forall p p', dict_ok d -> ps_shrink dops d fuel p = Ok p' ->
+Lemma ps_pre_range p b e : ps_pre p ->
+  syl_range (ps_com p) b e ->
+  (if ps_fwd p then b = ps_orig p else e = S (ps_orig p) /\ apbp (ps_com p) (ps_orig p) <= b) ->
+  ps_pre (ps_with_range p b e).
+Proof. intros [Sr O Dr] Hs Hd. constructor; cbn [ps_with_range ps_begin ps_end ps_com ps_orig ps_fwd]; assumption. Qed.
+
+Lemma ps_shrink_inv d fuel : forall p p', dict_ok d -> ps_pre p -> ps_shrink dops d fuel p = Ok p' ->
   ps_ok p' /\ ps_com p' = ps_com p.
 Proof.
-  induction fuel as [|k IH]; intros p p' Hd H; cbn [ps_shrink] in H; [discriminate|].
-  destruct (Nat.ltb (ps_end p) (ps_begin p)); [discriminate|].
+  induction fuel as [|k IH]; intros p p' Hd Hp H; cbn [ps_shrink] in H; [discriminate|].
+  destruct (Nat.ltb (ps_end p) (ps_begin p)) eqn:Elt; [discriminate|]. apply Nat.ltb_ge in Elt.
   destruct (Nat.ltb (clen (ps_com p)) (ps_end p)) eqn:Ele; [discriminate|]. apply Nat.ltb_ge in Ele.
   destruct (has_phrase dops d (ps_fuzzy p) _) eqn:Eh.
-  - inv_ok H. split; [split; [eapply range_has_lt; eassumption | assumption] | reflexivity].
+  - inv_ok H. split; [constructor; [eapply range_has_lt; eassumption | assumption | assumption] | reflexivity].
   - destruct (Nat.eqb (ps_end p - ps_begin p) 1 && _) eqn:E1.
-    { apply andb_true_iff in E1 as (E1 & _). apply Nat.eqb_eq in E1. inv_ok H. split; [split; [lia | assumption] | reflexivity]. }
-    destruct (ps_fwd p).
-    + destruct (Nat.eqb (ps_end p) 0); [discriminate|]. now destruct (IH _ _ Hd H).
-    + now destruct (IH _ _ Hd H).
+    { apply andb_true_iff in E1 as (E1 & _). apply Nat.eqb_eq in E1. inv_ok H.
+      split; [constructor; [lia | assumption | assumption] | reflexivity]. }
+    destruct Hp as [Sr O Dr].
+    destruct (ps_fwd p) eqn:Ef.
+    + destruct (Nat.eqb (ps_end p) 0); [discriminate|].
+      apply (IH _ _ Hd) in H; [exact H|].
+      constructor; cbn [ps_begin ps_end ps_com ps_orig ps_fwd]; [eapply syl_range_sub; [exact Sr | lia | lia] | exact O | exact Dr].
+    + apply (IH _ _ Hd) in H; [exact H|].
+      constructor; cbn [ps_begin ps_end ps_com ps_orig ps_fwd]; [eapply syl_range_sub; [exact Sr | lia | lia] | exact O |].
+      destruct Dr as (D1 & D2). split; [exact D1 | lia].
 Qed.
 
-Lemma ps_init_inv d p cur p' : dict_ok d -> ps_init dops d p cur = Ok p' -> ps_ok p' /\ ps_com p' = ps_com p.
+Lemma ps_init_inv d p cur p' : dict_ok d -> cur < clen (ps_com p) -> syl_at (ps_com p) cur ->
+  ps_init dops d p cur = Ok p' -> ps_ok p' /\ ps_com p' = ps_com p.
 Proof.
-  intros Hd H. unfold ps_init in H. destruct (ps_fwd p).
-  - destruct (_ && _); [discriminate|]. now destruct (ps_shrink_inv _ _ _ _ Hd H).
-  - now destruct (ps_shrink_inv _ _ _ _ Hd H).
+  intros Hd Hc Hs H. unfold ps_init in H. destruct (ps_fwd p) eqn:Ef.
+  - destruct (_ && _); [discriminate|].
+    assert (Nat.eqb cur (clen (ps_com p)) = false) as E by (apply Nat.eqb_neq; lia). rewrite E in H.
+    apply (ps_shrink_inv _ _ _ _ Hd) in H; [exact H|].
+    destruct (nbp_props (ps_com p) cur ltac:(lia)) as (_ & Hr & _).
+    constructor; cbn [ps_begin ps_end ps_com ps_orig ps_fwd]; [exact Hr | split; assumption | reflexivity].
+  - apply (ps_shrink_inv _ _ _ _ Hd) in H; [exact H|].
+    destruct (apbp_props (ps_com p) cur ltac:(lia)) as (Ha & Hr).
+    assert (Em : Nat.min (S cur) (clen (ps_com p)) = S cur) by lia.
+    constructor; cbn [ps_begin ps_end ps_com ps_orig ps_fwd]; rewrite ?Em.
+    + apply syl_range_snoc; assumption.
+    + split; assumption.
+    + split; [reflexivity | lia].
 Qed.
 
-Lemma ps_init_single_word_inv p cur p' : ps_init_single_word p cur = Ok p' -> ps_ok p' /\ ps_com p' = ps_com p.
+Lemma ps_init_single_word_inv p cur p' :
+  (0 < Nat.min cur (clen (ps_com p)) -> syl_at (ps_com p) (Nat.min cur (clen (ps_com p)) - 1)) ->
+  ps_init_single_word p cur = Ok p' -> ps_ok p' /\ ps_com p' = ps_com p.
 Proof.
-  unfold ps_init_single_word. destruct (Nat.eqb (Nat.min cur (clen (ps_com p))) 0) eqn:E; [discriminate|].
-  intros H. inv_ok H. unfold ps_ok. cbn [ps_begin ps_end ps_com]. apply Nat.eqb_neq in E. split; [lia | reflexivity].
+  unfold ps_init_single_word. intros Hs. set (e := Nat.min cur (clen (ps_com p))) in *.
+  destruct (Nat.eqb e 0) eqn:E; [discriminate|]. apply Nat.eqb_neq in E. specialize (Hs ltac:(lia)).
+  intros H. inv_ok H. split; [|reflexivity].
+  assert (He : e <= clen (ps_com p)) by (subst e; lia).
+  constructor; cbn [ps_begin ps_end ps_com ps_orig ps_fwd]; [lia | exact He |].
+  constructor; cbn [ps_begin ps_end ps_com ps_orig ps_fwd].
+  - intros k Hk. replace k with (e - 1) by lia. exact Hs.
+  - split; [lia | exact Hs].
+  - destruct (ps_fwd p); [reflexivity|]. split; [lia|]. now destruct (apbp_props (ps_com p) (e - 1) ltac:(lia)).
 Qed.
 
 Lemma ps_range_has_lt d p b e : dict_ok d -> ps_range_has dops d p b e = Ok true -> b < e /\ e <= clen (ps_com p).
@@ -260,46 +306,118 @@ Proof.
   inv_ok H. split; [eapply range_has_lt; eassumption | assumption].
 Qed.
 
+(* a narrower range found from (b, e): forward choice keeps the begin, rearward choice the end *)
 Lemma ps_next_point_inv d fuel : forall p b e b' e', dict_ok d ->
-  ps_next_point dops d fuel p b e = Ok (Some (b', e')) -> b' < e' /\ e' <= clen (ps_com p).
+  ps_next_point dops d fuel p b e = Ok (Some (b', e')) ->
+  b' < e' /\ e' <= clen (ps_com p) /\ b <= b' /\ e' <= e /\ (if ps_fwd p then b' = b else e' = e).
 Proof.
   induction fuel as [|k IH]; intros p b e b' e' Hd H; cbn [ps_next_point] in H; [discriminate|].
-  destruct (if ps_fwd p then (b, e - 1, Nat.eqb e 0) else (S b, e, false)) as [[b1 e1] stop].
-  destruct stop; [discriminate|]. destruct (Nat.eqb b1 e1); [discriminate|].
-  destruct (ps_range_has dops d p b1 e1) as [[|]| | |] eqn:Er; try discriminate.
-  - inv_ok H. eapply ps_range_has_lt; eassumption.
-  - eapply IH; eassumption.
+  destruct (ps_fwd p) eqn:Ef.
+  - destruct (Nat.eqb e 0); [discriminate|]. destruct (Nat.eqb b (e - 1)); [discriminate|].
+    destruct (ps_range_has dops d p b (e - 1)) as [[|]| | |] eqn:Er; try discriminate.
+    + inv_ok H. destruct (ps_range_has_lt _ _ _ _ Hd Er). repeat split; lia.
+    + destruct (IH _ _ _ _ _ Hd H) as (A & B & C & E & F). rewrite Ef in F. repeat split; lia.
+  - destruct (Nat.eqb (S b) e); [discriminate|].
+    destruct (ps_range_has dops d p (S b) e) as [[|]| | |] eqn:Er; try discriminate.
+    + inv_ok H. destruct (ps_range_has_lt _ _ _ _ Hd Er). repeat split; lia.
+    + destruct (IH _ _ _ _ _ Hd H) as (A & B & C & E & F). rewrite Ef in F. repeat split; lia.
 Qed.
 
+(* a wider range: forward choice grows the end up to the break point after the origin, rearward
+   choice the begin back to the break point before it *)
 Lemma ps_prev_point_inv d fuel : forall p b e b' e', dict_ok d ->
-  ps_prev_point dops d fuel p b e = Ok (Some (b', e')) -> b' < e' /\ e' <= clen (ps_com p).
+  ps_prev_point dops d fuel p b e = Ok (Some (b', e')) ->
+  b' < e' /\ e' <= clen (ps_com p) /\
+  (if ps_fwd p then b' = b /\ e' <= nbp (ps_com p) (ps_orig p) else e' = e /\ apbp (ps_com p) (ps_orig p) <= b').
 Proof.
   induction fuel as [|k IH]; intros p b e b' e' Hd H; cbn [ps_prev_point] in H; [discriminate|].
-  destruct (ps_fwd p).
+  destruct (ps_fwd p) eqn:Ef.
   - destruct (Nat.eqb e (clen (ps_com p))); [discriminate|].
-    destruct (Nat.ltb _ (S e)); [discriminate|].
+    destruct (Nat.ltb (nbp (ps_com p) (ps_orig p)) (S e)) eqn:En; [discriminate|]. apply Nat.ltb_ge in En.
     destruct (ps_range_has dops d p b (S e)) as [[|]| | |] eqn:Er; try discriminate.
-    + inv_ok H. eapply ps_range_has_lt; eassumption.
-    + eapply IH; eassumption.
+    + inv_ok H. destruct (ps_range_has_lt _ _ _ _ Hd Er). repeat split; lia.
+    + destruct (IH _ _ _ _ _ Hd H) as (A & B & F). rewrite Ef in F. repeat split; lia.
   - destruct (Nat.eqb b 0); [discriminate|].
-    destruct (Nat.ltb (b - 1) _); [discriminate|].
+    destruct (Nat.ltb (b - 1) (apbp (ps_com p) (ps_orig p))) eqn:En; [discriminate|]. apply Nat.ltb_ge in En.
     destruct (ps_range_has dops d p (b - 1) e) as [[|]| | |] eqn:Er; try discriminate.
-    + inv_ok H. eapply ps_range_has_lt; eassumption.
-    + eapply IH; eassumption.
+    + inv_ok H. destruct (ps_range_has_lt _ _ _ _ Hd Er). repeat split; lia.
+    + destruct (IH _ _ _ _ _ Hd H) as (A & B & F). rewrite Ef in F. repeat split; lia.
 Qed.
 
-Lemma ps_cycle_inv d fuel start : forall p p', dict_ok d -> fst start < snd start <= clen (ps_com p) ->
+Lemma ps_ok_narrower p b' e' : ps_ok p -> b' < e' -> ps_begin p <= b' -> e' <= ps_end p ->
+  (if ps_fwd p then b' = ps_begin p else e' = ps_end p) -> ps_ok (ps_with_range p b' e').
+Proof.
+  intros [Hlt Hle [Sr O Dr]] H1 H2 H3 H4.
+  constructor; cbn [ps_with_range ps_begin ps_end ps_com]; [lia | lia |].
+  constructor; cbn [ps_with_range ps_begin ps_end ps_com ps_orig ps_fwd].
+  - eapply syl_range_sub; [exact Sr | lia | lia].
+  - exact O.
+  - destruct (ps_fwd p); [lia | destruct Dr; split; lia].
+Qed.
+
+Lemma ps_ok_wider p b' e' : ps_ok p -> b' < e' -> e' <= clen (ps_com p) ->
+  (if ps_fwd p then b' = ps_begin p /\ e' <= nbp (ps_com p) (ps_orig p)
+   else e' = ps_end p /\ apbp (ps_com p) (ps_orig p) <= b') -> ps_ok (ps_with_range p b' e').
+Proof.
+  intros [Hlt Hle [Sr O Dr]] H1 H2 H4.
+  constructor; cbn [ps_with_range ps_begin ps_end ps_com]; [lia | lia |].
+  destruct O as (O1 & O2).
+  constructor; cbn [ps_with_range ps_begin ps_end ps_com ps_orig ps_fwd].
+  - destruct (ps_fwd p).
+    + destruct H4 as (-> & H4). rewrite Dr. destruct (nbp_props (ps_com p) (ps_orig p) ltac:(lia)) as (_ & Hr & _).
+      eapply syl_range_sub; [exact Hr | lia | lia].
+    + destruct H4 as (-> & H4). destruct Dr as (-> & _).
+      destruct (apbp_props (ps_com p) (ps_orig p) ltac:(lia)) as (_ & Hr).
+      eapply syl_range_sub; [apply syl_range_snoc; [exact Hr | exact O2] | lia | lia].
+  - split; assumption.
+  - destruct (ps_fwd p); [destruct H4; congruence | destruct H4, Dr; split; [congruence | lia]].
+Qed.
+
+(* the range PhraseSelector::next tries after (begin, end) is again a proper range *)
+Lemma ps_cycle_step_ok p : ps_ok p ->
+  let c := ps_com p in
+  let '(b, e) := if ps_fwd p
+                 then (ps_begin p, if Nat.eqb (ps_begin p) (ps_end p - 1) then nbp c (ps_begin p) else ps_end p - 1)
+                 else (if Nat.eqb (S (ps_begin p)) (ps_end p) then apbp c (S (ps_begin p) - 1) else S (ps_begin p), ps_end p) in
+  ps_ok (ps_with_range p b e).
+Proof.
+  intros Hok. pose proof Hok as [Hlt Hle [Sr [O1 O2] Dr]]. cbv zeta.
+  destruct (ps_fwd p) eqn:Ef.
+  - destruct (Nat.eqb (ps_begin p) (ps_end p - 1)) eqn:E.
+    + apply Nat.eqb_eq in E. rewrite Dr in *.
+      destruct (nbp_props (ps_com p) (ps_orig p) ltac:(lia)) as ((N1 & N2) & _).
+      pose proof (nbp_gt (ps_com p) (ps_orig p) O1 O2).
+      apply ps_ok_wider; [exact Hok | lia | lia |]. rewrite Ef. split; [congruence | lia].
+    + apply Nat.eqb_neq in E. apply ps_ok_narrower; [exact Hok | lia | lia | lia |]. now rewrite Ef.
+  - destruct Dr as (D1 & D2).
+    destruct (Nat.eqb (S (ps_begin p)) (ps_end p)) eqn:E.
+    + apply Nat.eqb_eq in E. replace (S (ps_begin p) - 1) with (ps_orig p) by lia.
+      destruct (apbp_props (ps_com p) (ps_orig p) ltac:(lia)) as (A1 & _).
+      apply ps_ok_wider; [exact Hok | lia | lia |]. rewrite Ef. split; [reflexivity | lia].
+    + apply Nat.eqb_neq in E. apply ps_ok_narrower; [exact Hok | lia | lia | lia |]. now rewrite Ef.
+Qed.
+
+Lemma ps_with_range_id p : ps_with_range p (ps_begin p) (ps_end p) = p.
+Proof. destruct p; reflexivity. Qed.
+
+Lemma ps_cycle_inv d fuel start : forall p p', dict_ok d -> ps_ok p ->
   ps_cycle dops d fuel start p = Ok p' -> ps_ok p' /\ ps_com p' = ps_com p.
 Proof.
-  induction fuel as [|k IH]; intros p p' Hd Hst H; cbn [ps_cycle] in H; [discriminate|].
-  match type of H with context[match ?r with Ok _ => _ | Err _ => _ | Panic _ => _ | OutOfFuel => _ end] =>
-    destruct r as [[b e]| | |] eqn:Er end; try discriminate.
-  destruct (ps_range_has dops d p b e) as [[|]| | |] eqn:Eh; try discriminate.
-  - inv_ok H. unfold ps_ok. cbn [ps_with_range ps_begin ps_end ps_com]. split; [eapply ps_range_has_lt; eassumption | reflexivity].
-  - destruct (Nat.eqb b (fst start) && Nat.eqb e (snd start)) eqn:Eb.
-    + apply andb_true_iff in Eb as (E1 & E2). apply Nat.eqb_eq in E1, E2. inv_ok H.
-      unfold ps_ok. cbn [ps_with_range ps_begin ps_end ps_com]. split; [lia | reflexivity].
-    + destruct (IH (ps_with_range p b e) p' Hd Hst H) as (Hok & Hc). split; [exact Hok | exact Hc].
+  induction fuel as [|k IH]; intros p p' Hd Hok H; cbn [ps_cycle] in H; [discriminate|].
+  pose proof (ps_cycle_step_ok p Hok) as Hstep. cbv zeta in Hstep.
+  destruct (ps_fwd p) eqn:Ef.
+  - destruct (Nat.eqb (ps_end p) 0); [discriminate|]. cbn [obind] in H.
+    set (e' := if Nat.eqb (ps_begin p) (ps_end p - 1) then nbp (ps_com p) (ps_begin p) else ps_end p - 1) in *.
+    destruct (ps_range_has dops d p (ps_begin p) e') as [[|]| | |] eqn:Eh; try discriminate.
+    + inv_ok H. split; [exact Hstep | reflexivity].
+    + destruct (Nat.eqb (ps_begin p) (fst start) && Nat.eqb e' (snd start)); [inv_ok H; split; [exact Hstep | reflexivity]|].
+      destruct (IH _ _ Hd Hstep H) as (A & B). split; [exact A | exact B].
+  - cbn [obind] in H.
+    set (b' := if Nat.eqb (S (ps_begin p)) (ps_end p) then apbp (ps_com p) (S (ps_begin p) - 1) else S (ps_begin p)) in *.
+    destruct (ps_range_has dops d p b' (ps_end p)) as [[|]| | |] eqn:Eh; try discriminate.
+    + inv_ok H. split; [exact Hstep | reflexivity].
+    + destruct (Nat.eqb b' (fst start) && Nat.eqb (ps_end p) (snd start)); [inv_ok H; split; [exact Hstep | reflexivity]|].
+      destruct (IH _ _ Hd Hstep H) as (A & B). split; [exact A | exact B].
 Qed.
 
 Lemma ps_jump_last_inv d fuel : forall p p', dict_ok d -> ps_ok p ->
@@ -308,8 +426,8 @@ Proof.
   induction fuel as [|k IH]; intros p p' Hd Hp H; cbn [ps_jump_last] in H; [discriminate|].
   destruct (ps_next_selection_point dops d p) as [[[b e]|]| | |] eqn:En; try discriminate.
   - assert (Hq : ps_ok (ps_with_range p b e)).
-    { unfold ps_ok. cbn [ps_with_range ps_begin ps_end ps_com].
-      unfold ps_next_selection_point in En. eapply ps_next_point_inv; eassumption. }
+    { unfold ps_next_selection_point in En. destruct (ps_next_point_inv _ _ _ _ _ _ _ Hd En) as (A & B & C & E & F).
+      apply ps_ok_narrower; assumption. }
     destruct (IH _ _ Hd Hq H) as (Hok & Hc). split; [exact Hok | exact Hc].
   - inv_ok H. split; [assumption | reflexivity].
 Qed.
@@ -341,22 +459,46 @@ Proof.
 Qed.
 
 (* ---- entering the Selecting state ---- *)
-Lemma new_phrase_selecting_inv s s' st' : SInv s -> new_phrase_selecting dops s = Ok (s', st') ->
-  SInv s' /\ state_inv s' st'.
+(* the symbol the list is opened on (the one at the cursor, or the last one when the cursor is at the
+   end) is the symbol at the clamped cursor *)
+Lemma symbol_for_select_at_clamped_cursor e sym : ce_symbol_for_select e = Some sym ->
+  cursor (ce_clamp_cursor (ce_push_cursor e)) < clen (inner e) /\
+  nth_error (symbols (inner e)) (cursor (ce_clamp_cursor (ce_push_cursor e))) = Some sym.
 Proof.
-  intros [W Dk] H. unfold new_phrase_selecting in H. bind_ok H p Hp. inv_ok H. split.
-  - constructor; cbn; [|assumption]. apply ce_clamp_cursor_wf, ce_push_cursor_wf, W.
-  - destruct (ps_init_inv _ _ _ _ Dk Hp) as (Hok & Hc). cbn [state_inv sel_inv]. split; [|apply page_ok_zero].
-    split; [exact Hok|]. rewrite Hc. reflexivity.
+  unfold ce_symbol_for_select, ce_is_end, ce_clamp_cursor, ce_push_cursor, comp_symbol, ce_len. cbn [cursor inner cursor_stack].
+  rewrite (Nat.eqb_sym (clen (inner e)) (cursor e)).
+  destruct (Nat.eqb (cursor e) (clen (inner e))); cbn [cursor]; intros H;
+    (split; [apply nth_error_Some; unfold clen in *; congruence | exact H]).
 Qed.
 
-Lemma new_phrase_selecting_simple_inv s s' st' : SInv s -> new_phrase_selecting_simple s = Ok (s', st') ->
+Lemma new_phrase_selecting_inv s s' st' : SInv s ->
+  (exists code, ce_symbol_for_select (com s) = Some (SymSyl code)) ->
+  new_phrase_selecting dops s = Ok (s', st') ->
   SInv s' /\ state_inv s' st'.
 Proof.
-  intros [W Dk] H. unfold new_phrase_selecting_simple in H. bind_ok H p Hp. inv_ok H. split.
+  intros [W Dk] (code & Hsym) H. unfold new_phrase_selecting in H. bind_ok H p Hp. inv_ok H. split.
+  - constructor; cbn; [|assumption]. apply ce_clamp_cursor_wf, ce_push_cursor_wf, W.
+  - destruct (symbol_for_select_at_clamped_cursor _ _ Hsym) as (Hlt & Hat).
+    assert (Hin : inner (ce_clamp_cursor (ce_push_cursor (com s))) = inner (com s)).
+    { unfold ce_clamp_cursor, ce_push_cursor. cbn [cursor inner cursor_stack ce_len]. destruct (Nat.eqb _ _); reflexivity. }
+    unfold ps_new in Hp. rewrite Hin in Hp.
+    apply ps_init_inv in Hp; [|exact Dk | exact Hlt | exists code; exact Hat].
+    destruct Hp as (Hok & Hc). cbn [state_inv sel_inv]. split; [|apply page_ok_zero].
+    split; [exact Hok|]. rewrite Hc. cbn [ps_com com set_com]. now rewrite Hin.
+Qed.
+
+Lemma new_phrase_selecting_simple_inv s s' st' : SInv s ->
+  (0 < cursor (com s) -> syl_at (inner (com s)) (cursor (com s) - 1)) ->
+  new_phrase_selecting_simple s = Ok (s', st') ->
+  SInv s' /\ state_inv s' st'.
+Proof.
+  intros [W Dk] Hsym H. unfold new_phrase_selecting_simple in H. bind_ok H p Hp. inv_ok H. split.
   - constructor; cbn; [|assumption]. apply ce_push_cursor_wf, W.
-  - destruct (ps_init_single_word_inv _ _ _ Hp) as (Hok & Hc). cbn [state_inv sel_inv]. split; [|apply page_ok_zero].
-    split; [exact Hok|]. rewrite Hc. reflexivity.
+  - apply ps_init_single_word_inv in Hp.
+    + destruct Hp as (Hok & Hc). cbn [state_inv sel_inv]. split; [|apply page_ok_zero].
+      split; [exact Hok|]. rewrite Hc. reflexivity.
+    + cbn [ps_new ps_com ce_push_cursor cursor inner]. destruct W as [_ Wc]. unfold ce_len in Wc.
+      rewrite Nat.min_l by exact Wc. exact Hsym.
 Qed.
 
 Lemma new_special_selecting_inv s sym s' st' : SInv s -> new_special_selecting s sym = Ok (s', st') ->
@@ -379,9 +521,9 @@ Lemma start_selecting_common_inv s f s' t : SInv s ->
   start_selecting_common dops s f = Ok (s', t) -> SInv s' /\ trans_inv s' t.
 Proof.
   intros I Hf H. unfold start_selecting_common in H.
-  destruct (ce_symbol_for_select (com s)) as [sym|].
-  - destruct (is_syllable sym); bind_ok H r Hr; destruct r as [s1 st1]; inv_ok H; cbn [fst snd trans_inv].
-    + eapply new_phrase_selecting_inv; eassumption.
+  destruct (ce_symbol_for_select (com s)) as [sym|] eqn:Esym.
+  - destruct (is_syllable sym) eqn:Eis; bind_ok H r Hr; destruct r as [s1 st1]; inv_ok H; cbn [fst snd trans_inv].
+    + eapply new_phrase_selecting_inv; [exact I | | exact Hr]. destruct sym as [code|ch]; [eauto | discriminate].
     + eapply new_special_selecting_inv; eassumption.
   - specialize (Hf s I). destruct (f s) as [a b]. inv_ok H. exact Hf.
 Qed.
@@ -521,10 +663,15 @@ Proof.
   destruct kb; try done_spin H.
   - (* Commit *)
     split_if H; [|done_spin H].
-    bind_ok H s2 H2. specialize (INS _ _ _ I1 H2).
+    bind_ok H s2 H2. pose proof (INS _ _ _ I1 H2) as I2.
     destruct (o_engine (opts (set_syl s2 (so_clear sops (syl s2))))).
     + bind_ok H r Hr. destruct r as [s3 st3]. inv_ok H. cbn [fst snd trans_inv].
-      eapply new_phrase_selecting_simple_inv; [|exact Hr]. sinv.
+      eapply new_phrase_selecting_simple_inv; [| |exact Hr]; [sinv|].
+      (* the syllable just inserted sits right before the cursor *)
+      cbn [com set_syl]. apply with_com_ok in H2 as (c2 & Hc2 & ->). cbn [com set_com].
+      destruct I1 as [W1 _]. destruct (ce_insert_spec _ _ _ W1 Hc2) as (_ & Hsy & Hcur & _).
+      intros _. rewrite Hcur. replace (S (cursor (com (set_syl s sy))) - 1) with (cursor (com (set_syl s sy))) by lia.
+      eexists. unfold syl_at. rewrite Hsy. apply nth_error_insert_at_eq. destruct W1 as [_ Wc]. exact Wc.
     + done_spin H.
     + done_spin H.
   - (* Fuzzy *)
@@ -551,7 +698,7 @@ Proof.
   intros I Hsel Hpg H. unfold selecting_select_offset in H. destruct sel as [p|y|sym0].
   - bind_ok H cands Hc. destruct (nth_error cands _) as [text|].
     + bind_ok H c1 H1. inv_ok H. split; [|split; exact Logic.I].
-      destruct I as [W Dk]. destruct Hsel as ((Hlt & Hle) & Hcom).
+      destruct I as [W Dk]. destruct Hsel as ([Hlt Hle _] & Hcom).
       destruct (ce_select_spec _ (mkIv (ps_begin p) (ps_end p) true text) _ W Hlt H1) as (W1 & _).
       constructor; cbn; [|assumption].
       destruct (o_auto_shift (opts s)); [apply ce_right_wf|]; apply ce_pop_cursor_wf; assumption.
@@ -577,9 +724,12 @@ Proof. unfold selecting_select. apply selecting_select_offset_inv. Qed.
 
 Lemma reselect_at_cursor_inv s sel : SInv s -> reselect_at_cursor dops s = Ok sel -> sel_inv s sel.
 Proof.
-  intros [W Dk] H. unfold reselect_at_cursor in H. destruct (ce_symbol (com s)) as [sym|]; [|discriminate].
-  destruct (is_syllable sym).
-  - bind_ok H p Hp. inv_ok H. cbn. destruct (ps_init_inv _ _ _ _ Dk Hp) as (Hok & Hc). split; [exact Hok | now rewrite Hc].
+  intros [W Dk] H. unfold reselect_at_cursor in H. destruct (ce_symbol (com s)) as [sym|] eqn:Esym; [|discriminate].
+  destruct (is_syllable sym) eqn:Eis.
+  - bind_ok H p Hp. inv_ok H. cbn.
+    unfold ce_symbol, comp_symbol in Esym. destruct sym as [code|ch]; [|discriminate].
+    apply ps_init_inv in Hp; [|exact Dk | apply nth_error_Some; unfold clen, ps_new, ps_com; congruence | exists code; exact Esym].
+    destruct Hp as (Hok & Hc). split; [exact Hok | now rewrite Hc].
   - inv_ok H. exact Logic.I.
 Qed.
 
@@ -605,8 +755,8 @@ Proof.
       eapply total_page_lt; eassumption. }
     destruct sel as [p|y|sym0].
     - bind_ok H p' Hp'. inv_ok H. split; [assumption | split; [exact Logic.I|]].
-      destruct I as [W Dk]. unfold ps_next in Hp'. destruct Hsel as ((Hlt & Hle) & Hcom).
-      destruct (ps_cycle_inv _ _ (ps_begin p, ps_end p) p p' Dk (conj Hlt Hle) Hp') as (Hok & Hc).
+      destruct I as [W Dk]. unfold ps_next in Hp'. destruct Hsel as (Hpok & Hcom).
+      destruct (ps_cycle_inv _ _ (ps_begin p, ps_end p) p p' Dk Hpok Hp') as (Hok & Hc).
       split; [|apply page_ok_zero]. split; [exact Hok | congruence].
     - inv_ok H. fin_stay.
     - inv_ok H. fin_stay. }
@@ -847,11 +997,13 @@ Theorem ed_jump_inv e e' b : Inv e ->
 Proof.
   intros I [H|[H|[H|H]]]; (eapply with_phrase_sel_inv; [exact I| |exact H]); intros pg act p p' Hp Hf;
   destruct I as [[W Dk] _].
-  - bind_ok Hf r Hr. destruct r as [[b0 e0]|]; inv_ok Hf. unfold ps_ok. cbn [ps_with_range ps_begin ps_end ps_com].
-    unfold ps_next_selection_point in Hr. split; [eapply ps_next_point_inv; eassumption | reflexivity].
-  - bind_ok Hf r Hr. destruct r as [[b0 e0]|]; inv_ok Hf. unfold ps_ok. cbn [ps_with_range ps_begin ps_end ps_com].
-    unfold ps_prev_selection_point in Hr. split; [eapply ps_prev_point_inv; eassumption | reflexivity].
-  - bind_ok Hf r Hr. inv_ok Hf. eapply ps_init_inv; eassumption.
+  - bind_ok Hf r Hr. destruct r as [[b0 e0]|]; inv_ok Hf.
+    unfold ps_next_selection_point in Hr. destruct (ps_next_point_inv _ _ _ _ _ _ _ Dk Hr) as (A & B & C & E & F).
+    split; [apply ps_ok_narrower; assumption | reflexivity].
+  - bind_ok Hf r Hr. destruct r as [[b0 e0]|]; inv_ok Hf.
+    unfold ps_prev_selection_point in Hr. destruct (ps_prev_point_inv _ _ _ _ _ _ _ Dk Hr) as (A & B & F).
+    split; [apply ps_ok_wider; assumption | reflexivity].
+  - bind_ok Hf r Hr. inv_ok Hf. destruct Hp as [_ _ [_ (O1 & O2) _]]. eapply ps_init_inv; eassumption.
   - bind_ok Hf r Hr. inv_ok Hf. eapply ps_jump_last_inv; eassumption.
 Qed.
 
